@@ -3,7 +3,7 @@ import Unsized.PtrLemmas
 # Lemmas for `swap_detected`: non-emptiness (`solid`), address ranges of fresh pointers,
 subtrees and replaced subtrees
 -/
-namespace Unsized.Ptr
+namespace Unsized.PtrT
 open Common Unsized
 
 /-! ## `solid`: every struct pointer on the way has at least one child -/
@@ -632,4 +632,4 @@ theorem getPtr_solid (s : Shape) (hok : s.ok = true) (bs : List Nat) (base : Nat
     (h : getPtr s bs base = .ok (t, n)) : solid t = true :=
   getPtr_solid_all s true false hok (isUnit_of_okAux_false s true hok) bs base t n h
 
-end Unsized.Ptr
+end Unsized.PtrT
